@@ -348,6 +348,10 @@ def roundtrip(shapes, formats):
                 elif ignore == {"edges"}:
                     exp = dict(exp, edges=[])
                     tag = tag[:-1] + ", saved with ignore_elements={'edges'}]"
+            def elements_of(m):
+                return tuple((name, _ints(getattr(m, name))) for name in ("edges", "faces", "cells") if hasattr(m, name)) + \
+                    (("n_vertices", len(m.vertices)), ("n_face_corners", len(m.face_corners) if hasattr(m, "face_corners") else 0))
+            before_save = elements_of(mesh)
             with contextlib.ExitStack() as st:
                 _rebind_importers(sx, st)
                 try:
@@ -355,6 +359,8 @@ def roundtrip(shapes, formats):
                 except Exception as e:
                     sx.check(False, "save raised" + tag, detail=repr(e))
                     return
+                sx.check(elements_of(mesh) == before_save, "saving a mesh leaves the mesh itself unchanged" + tag,
+                         detail="before %s after %s" % (str(before_save)[:150], str(elements_of(mesh))[:150]))
                 # --- the bytes mean the same thing to an independent reader
                 try:
                     rV, rE, rF, rC = ref_read(fmt, path)
